@@ -180,7 +180,8 @@ PROPS = {
     "C14": {
         "theorems": T("C14", ["shouldSkip_char", "scan_tests_like_any", "tonl_never_in_tests", "excluded_inert", "no_diag_in_excluded", "imm_site_pos", "ctor_site_pos"]),
         "suites": [("excl", {}), ("excl", {"scan": "1"}), ("excl", {"paths": "zz,gen_"}), ("excl", {"scan": "1", "paths": "zz_,in_test"}),
-                   ("excl", {"paths": "test,testdata,zz_testdata", "n": 24}), ("excl", {"paths": "/zz_,d0/gen_,0/in_test.go", "n": 24}), ("bin", {"mode": "excludedir"}),
+                   ("excl", {"paths": "test,testdata,zz_testdata", "n": 24}), ("excl", {"paths": "/zz_,d0/gen_,0/in_test.go", "n": 24}), ("excl", {"paths": "(v1),zz+plus,testdata", "n": 20}), ("bin", {"mode": "excludedir"}),
+                   ("prog", {"impl": "1", "focus": "IMPL", "n": 30, "nocorpus": "1"}),
                    ("prog", {"focus": "IMM,CTOR,PKGO,ANN:IKTMP", "scan": "1", "testfiles": "1", "n": 30, "nocorpus": "1"})],
         "binary": True,
         "assumptions": ["declarations in excluded files still exist for the type checker; the theorem keeps the type information fixed"],
